@@ -1,0 +1,59 @@
+//! Hooks of group 'unix' for the /verif machinery (C48: domain level upgrade).
+use crate::migration_data;
+use crate::prelude::*;
+use std::collections::BTreeMap;
+
+/// One built-in entry as its definition states it: uuid and, per attribute, the proto strings of
+/// every value the definition specifies.
+pub struct BuiltinDefinition {
+    pub uuid: Option<Uuid>,
+    pub phase: &'static str,
+    pub attrs: BTreeMap<String, Vec<String>>,
+}
+
+fn describe(phase: &'static str, e: &EntryInitNew) -> BuiltinDefinition {
+    let attrs = e
+        .get_ava_iter()
+        .map(|(a, vs)| {
+            let mut v: Vec<String> = vs.to_proto_string_clone_iter().collect();
+            v.sort();
+            (a.to_string(), v)
+        })
+        .collect();
+    BuiltinDefinition {
+        uuid: e.get_uuid(),
+        phase,
+        attrs,
+    }
+}
+
+/// The definitions the migration to `DOMAIN_TGT_LEVEL` applies (phases 3 to 7 of the data set of
+/// that level), read straight from `migration_data`, without running any migration code.
+pub fn builtin_definitions_target() -> Result<Vec<BuiltinDefinition>, OperationError> {
+    const { assert!(DOMAIN_TGT_LEVEL == DOMAIN_LEVEL_1_12) };
+    use migration_data::dl_1_12 as d;
+    let mut out = Vec::new();
+    out.extend(d::phase_3_key_provider().iter().map(|e| describe("phase 3 key provider", e)));
+    out.extend(d::phase_4_system_entries().iter().map(|e| describe("phase 4 system entries", e)));
+    out.extend(
+        d::phase_5_builtin_admin_entries()?
+            .iter()
+            .map(|e| describe("phase 5 builtin admin entries", e)),
+    );
+    out.extend(
+        d::phase_6_builtin_non_admin_entries()?
+            .iter()
+            .map(|e| describe("phase 6 builtin non admin entries", e)),
+    );
+    out.extend(
+        d::phase_7_builtin_access_control_profiles()
+            .iter()
+            .map(|e| describe("phase 7 access control profiles", e)),
+    );
+    Ok(out)
+}
+
+/// Uuids the migration to `DOMAIN_TGT_LEVEL` deletes (phase 8).
+pub fn builtin_deleted_uuids_target() -> Vec<Uuid> {
+    migration_data::dl_1_12::phase_8_delete_uuids()
+}
